@@ -3,6 +3,7 @@ package props
 import (
 	"fmt"
 	"sort"
+	"strings"
 
 	"github.com/Azbesciak/RealDecisionMaker/lib/model"
 
@@ -116,9 +117,88 @@ func c04Reference(ids []string, vals []float64) c04Expect {
 	return c04Expect{order, links, r}
 }
 
+// c04Profiles: value profiles over three criteria whose ascending orders of the criteria differ from one alternative to the
+// next (every permutation of 1,2,3), plus a flat and a tied one.
+var c04Profiles = [][]float64{{1, 2, 3}, {1, 3, 2}, {2, 1, 3}, {2, 3, 1}, {3, 1, 2}, {3, 2, 1}, {2, 2, 2}, {1, 1, 3}}
+
+func c04MultiRequest(method string, prof []int, known, chose []string) M {
+	idx := map[string]int{}
+	for i, id := range ids6[:len(prof)] {
+		idx[id] = prof[i]
+	}
+	vals := make([][]float64, len(known))
+	for i, id := range known {
+		vals[i] = c04Profiles[idx[id]]
+	}
+	req := genericRequest(method, critIDs(3), -1, known, vals, chose, []float64{1, 2, 4})
+	if method == "choquetIntegral" {
+		// not additive: every pair is worth 0.9 of the sum of its members
+		w := asM(asM(req["methodParameters"])["weights"])
+		for k, v := range w {
+			if strings.Count(k, ",") == 1 {
+				w[k] = asF(v) * 0.9
+			}
+		}
+	}
+	return req
+}
+
+// c04Multi: several criteria. The values the id-ordered listing reports are taken as the utilities; order and links of that
+// answer must follow from them, and every other listing of the same alternatives must report the same value, class and
+// links for every alternative.
+func c04Multi(c *Case) []Violation {
+	method := asS(c.Params["method"])
+	prof := toInts(c.Params["profiles"])
+	ids := ids6[:len(prof)]
+	out := Decide(J(c04MultiRequest(method, prof, ids, ids)), nil)
+	if !out.Accepted {
+		return []Violation{viol(c, "C04/rejected", "valid utility request rejected: %s", out.Err)}
+	}
+	base, err := ParseResponse(out.Body)
+	if err != nil {
+		return []Violation{viol(c, "C04/unparsable", "%v", err)}
+	}
+	vals := make([]float64, len(ids))
+	for _, e := range base.Result {
+		for i, id := range ids {
+			if id == e.Alternative.ID {
+				vals[i] = asF(e.Evaluation["value"])
+			}
+		}
+	}
+	exp := c04Reference(ids, vals)
+	vs := c04Compare(c, base, exp)
+	for _, pk := range permSet(len(ids), 4) {
+		for _, pc := range permSet(len(ids), 4) {
+			o2 := Decide(J(c04MultiRequest(method, prof, permute(ids, pk), permute(ids, pc))), nil)
+			stat("transitions")
+			if !o2.Accepted {
+				return append(vs, viol(c, "C04/rejected", "valid utility request rejected for the listing known=%v chose=%v: %s", permute(ids, pk), permute(ids, pc), o2.Err))
+			}
+			r2, err := ParseResponse(o2.Body)
+			if err != nil {
+				return append(vs, viol(c, "C04/unparsable", "%v", err))
+			}
+			for _, v := range c04Compare(c, r2, exp) {
+				v.Sig = "C04/listing-order/" + strings.TrimPrefix(v.Sig, "C04/")
+				v.Msg = fmt.Sprintf("listing known=%v chose=%v (values taken from the id-ordered listing): %s", permute(ids, pk), permute(ids, pc), v.Msg)
+				vs = append(vs, v)
+			}
+			if len(vs) > 0 {
+				return vs
+			}
+			stat("traces_validated")
+		}
+	}
+	return vs
+}
+
 func c04Check(c *Case) []Violation {
 	if c.Kind == "ranking" {
 		return c04CheckRanking(c)
+	}
+	if c.Kind == "multi" {
+		return c04Multi(c)
 	}
 	body := J(c.Req)
 	out := Decide(body, nil)
@@ -208,6 +288,18 @@ func c04Run(s *Shard) {
 	if !quick(s) {
 		maxN, fullPerm = 6, 5
 	}
+	// several criteria: all triples of profiles x the three methods x every listing of known and considered alternatives
+	Product([]int{len(c04Profiles), len(c04Profiles), len(c04Profiles)}, func(o []int) {
+		for _, method := range utilMethods {
+			if !s.Take() {
+				continue
+			}
+			c := &Case{Prop: "C04", Kind: "multi", Params: M{"method": method, "profiles": []int{o[0], o[1], o[2]}}}
+			s.Evals += 37
+			s.Begin(c)
+			s.Report(c04Multi(c))
+		}
+	})
 	s.Bounds["max_alternatives"] = maxN
 	s.Bounds["full_permutations_up_to"] = fullPerm
 	s.Bounds["levels"] = c04Levels
